@@ -352,52 +352,22 @@ def frame_atomicity(ctx):
 # ---------------------------------------------------------------------------
 
 def empty_records(ctx):
-    """A run cancelled (or failing) inside its first step writes only frame 0, which has no running_state: the lists the reader
-    fills per frame are then empty.  np.concatenate([]) raises, so every aggregation must be guarded by the list's truthiness
-    (the reader itself shows the idiom: `if mus: mu = np.concatenate(mus, ...)`)."""
+    """A run cancelled (or failing) inside its first step writes only frame 0, which has no per-step records.  The frame writer is
+    followed (pvs/shapes.py) for exactly that file - with and without probe / screening records configured - and
+    DynamicsData.from_hdf5 is followed on it: it must return, not raise (`np.concatenate([])` raises)."""
+    from ..shapes import MANY, read_records, write_frames
     repo = ctx.repo
     f = repo.func("tdgl.solution.data", "DynamicsData.from_hdf5")
-    fn = f.node
-    pm = parent_map(fn)
-    # lists initialised empty and appended to only inside loops
-    lists = {n.targets[0].id for n in own_nodes(fn) if isinstance(n, ast.Assign) and len(n.targets) == 1 and isinstance(n.targets[0], ast.Name)
-             and isinstance(n.value, ast.List) and not n.value.elts}
-    loop_filled = set()
-    for c in own_nodes(fn):
-        if isinstance(c, ast.Call) and isinstance(c.func, ast.Attribute) and c.func.attr in ("append", "extend") \
-                and isinstance(c.func.value, ast.Name) and c.func.value.id in lists:
-            st = c
-            while not isinstance(st, ast.stmt):
-                st = pm[id(st)][0]
-            if any(isinstance(g, (ast.For, ast.While)) for g, _ in guards_of(fn, st, pm)):
-                loop_filled.add(c.func.value.id)
-    if len(loop_filled) < 2:
-        raise AnalysisError(f"DynamicsData.from_hdf5 no longer fills per-frame lists in a loop ({sorted(loop_filled)})")
-    aggs = 0
-    for c in own_nodes(fn):
-        if isinstance(c, ast.Call) and norm(c.func).split(".")[-1] in ("concatenate", "stack", "hstack", "vstack", "max", "min") and c.args \
-                and isinstance(c.args[0], ast.Name) and c.args[0].id in loop_filled:
-            L = c.args[0].id
-            aggs += 1
-            st = c
-            while not isinstance(st, ast.stmt):
-                st = pm[id(st)][0]
-            guarded = any(isinstance(g, ast.If) and br == "true" and norm(g.test) in (L, f"len({L})", f"len({L}) > 0", f"{L} != []")
-                          for g, br in guards_of(fn, st, pm))
-            # or a conditional expression `agg(L) if L else <empty>`
-            par = pm[id(c)][0]
-            while not isinstance(par, ast.stmt):
-                if isinstance(par, ast.IfExp) and norm(par.test) in (L, f"len({L})", f"len({L}) > 0") and any(x is c for x in ast.walk(par.body)):
-                    guarded = True
-                par = pm[id(par)][0]
-            ctx.ob("R15.8", f"L{c.lineno}: {norm(c)[:60]} is guarded against an empty `{L}`", guarded, where=f.fq,
-                   construct=f"aggregation of the per-frame list `{L}` without an emptiness guard", loc=loc(f, c),
-                   message=f"`{norm(c)[:60]}` raises on an empty list, and `{L}` is empty when no frame carries per-step records",
+    for label, sizes in (("dt only", {"dt": 1}), ("probes and screening", {"dt": 1, "mu": MANY, "theta": MANY, "screening_iterations": 1})):
+        for frames, what in ((0, "frame 0 only"), (1, "frame 0 and one frame with records")):
+            out, problems = write_frames(repo, sizes, MANY, frames)
+            kind, val = read_records(repo, out, frames + 1) if not problems else ("raise", problems[0])
+            ctx.ob("R15.8", f"records ({label}): a file with {what} loads", kind == "return", detail=str(val)[:200], where=f.fq,
+                   construct=f"aggregation of the per-frame records with {what} ({label})", loc=loc(f, f.node),
+                   message=f"loading a file with {what} raises {val}",
                    consequence="a run cancelled with Ctrl-C (or failing) inside its first step, or a run with solve_time=0, writes only frame 0: "
                                "tdgl.solve() then ends with 'ValueError: need at least one array to concatenate' instead of returning the partial Solution",
                    witness={"input": "KeyboardInterrupt injected into the first update of the recorded stage (pause_on_interrupt=False)"})
-    if aggs < 2:
-        raise AnalysisError("DynamicsData.from_hdf5 no longer aggregates its per-frame lists")
 
 
 # ---------------------------------------------------------------------------
